@@ -404,7 +404,7 @@ func (p *parser) error(msg string, offset, endOffset int) {
 func (p *parser) rune(r rune, opts CharsetOptions) charset {
 	p.set = append(p.set[:0], r, r)
 	cs := charset(p.set)
-	if opts.Fold {
+	if opts.Fold && (!opts.ScanBytes || r < 0x80) { // in bytes mode only ASCII is folded (see foldable)
 		cs.fold(opts.ScanBytes)
 	}
 	return cs
